@@ -360,6 +360,18 @@ func genC21(g *core.Gen) {
 		"-- leading single line comment no end select ...", "/* leading comment no end select ...", "İnsert into t values (1)", "Kill 1", "insért", "insert\x00into"} {
 		all(s, "fixed", true)
 	}
+	// one valid statement per node type the tree check knows (stmtTypeOfNode), behind the wrappers that
+	// defeat the textual preview, on the namespace whose statements are planned from the parsed tree
+	for _, s := range []string{"insert into t values (1)", "replace into t values (1)", "update t set a=1", "delete from t", "create table t2(a int)",
+		"create database d2", "create index i on t(a)", "create view v as select 1", "alter table t add c int", "drop table t", "drop database d2",
+		"drop index i on t", "drop view v", "truncate table t", "TRUNCATE t", "rename table t to t2", "load data infile 'x' into table t", "select 1", "show tables"} {
+		for _, w := range []string{"/*!40101 -- x */ ", "/*!40101 # x */ ", "/*!40101 -- x\n */ ", "/*!40101 -- x */ /*!40101 # y */ "} {
+			for _, user := range []string{"ro", "rosplit"} {
+				sessCase("tree-planned-hidden", "squery", user, w+s)
+				sessCase("tree-planned-hidden", "query", user, w+s)
+			}
+		}
+	}
 	n := g.Scale(700, 12000)
 	for i := 0; i < n; i++ {
 		kw := core.Pick(g, c21Keywords)
